@@ -25,7 +25,7 @@ var propRules = map[string][]string{
 	"C07": {"C07.R1", "C07.R2", "C07.R3", "C07.R4", "C02.R1", "C05.R3", "C06.R2"},
 	"C08": {"C08.R1", "C08.R2", "C08.R3", "C08.R4", "C10.R2"},
 	"C09": {"C09.R1", "C09.R2", "C09.R3", "C09.R4", "C01.R8"},
-	"C10": {"C10.R1", "C10.R2", "C10.R3", "C10.R4", "C10.R5", "C01.R9", "C10.R6", "C10.R7", "C10.R8", "C10.R9", "C10.R10", "C13.R3", "C10.R11", "C10.R12", "C05.R5"},
+	"C10": {"C10.R1", "C10.R2", "C10.R3", "C10.R4", "C10.R5", "C01.R9", "C10.R6", "C10.R7", "C10.R8", "C10.R9", "C10.R10", "C13.R3", "C10.R11", "C10.R12", "C05.R5", "C09.R2"},
 	"C12": {"C12.R1", "C12.R2", "C12.R3", "C12.R4", "C12.R5", "C12.R6"},
 	"C13": {"C13.R1", "C13.R2", "C13.R3", "C13.R4", "C15.R5", "C15.R2", "C15.R7", "C13.R5", "C13.R6"},
 	"C11": {"C11.R1", "C11.R2", "C11.R4", "C06.R5", "C01.R4", "C10.R11"},
